@@ -363,6 +363,10 @@ fn single_flip_case(o1: Opts, o2: Opts, inv: &HashMap<String, (u16, u8)>, st: &m
             probes.push(p);
         }
         probes.push(vec![(keys().by_name("KP_1").map(|k| k.code).unwrap_or(0), 0), (keys().by_name("KP_DECIMAL").map(|k| k.code).unwrap_or(0), 0)]); // number pad
+        // keys the layout may refuse, in the middle of a word (what is returned then is built on another path)
+        if let Some(k) = inv.get(ka).copied() {
+            probes.push(vec![k, (keys().by_name("KP_5").map(|k| k.code).unwrap_or(0), 0), k, (keys().by_name("KP_EQUALS").map(|k| k.code).unwrap_or(0), 0), k]);
+        }
         probes.push(ascii(";)")); // emoticon through raw keys
     }
     let sb = Sandbox::new();
